@@ -1147,6 +1147,7 @@ class SmiV2Parser(AbstractParser):
         if p:
             raise error.PySmiParserError("Bad grammar near token type %s, value %s" % (p.type, p.value),
                                          lineno=p.lineno)
+        raise error.PySmiParserError("Unexpected end of input", lineno=self.lexer.lexer.lineno)
 
 
 #
